@@ -278,6 +278,7 @@ type Instance struct {
 	Notes   []string
 	Path    []string
 	Cover   bool // satisfiability (reachability) probe rather than validity goal
+	Witness map[string][]string // replay witnesses: name -> SMT terms (one per leaf), evaluated in the old state
 }
 
 func sortedKeys[V any](m map[string]V) []string {
